@@ -55,12 +55,12 @@ PROPS = {
                 "revoked before, at the edges of, inside and after the epoch window (incl. the 90% sentinel threshold); "
                 "computePillarRewardForEpoch on random epoch statistics (1-100 pillars, missed slots, zero expected, zero "
                 "total weight, a twelfth each invalid: produced > expected, total weight below the sum); and the contract "
-                "functions computeStakeRewardsForEpoch / computeSentinelRewardsForEpoch / computeDetailedPillarReward run on "
+                "functions computeStakeRewardsForEpoch / computeSentinelRewardsForEpoch / computeDetailedPillarReward / "
+                "computeLiquidityStakeRewardsForEpoch (token tuples, additional reward, a fifteenth with percentages above 100%) run on "
                 "an in-memory contract storage with generated entries, pillars, give-percentages and backers, reading back "
                 "the RewardDeposit of every address; distinct = distinct (op,result) lines",
         "partial": "T4 epoch cursor / exactly-once per epoch, T5 collect-once and 'identical on all nodes' need the mock-node "
-                   "and two-node streams (not part of this check yet); the liquidity-stake split is a theorem but has no "
-                   "stream; premises produced<=expected, sum of weights <= total weight, sum expected <= MomentumsPerEpoch "
+                   "and two-node streams (not part of this check yet); premises produced<=expected, sum of weights <= total weight, sum expected <= MomentumsPerEpoch "
                    "are consensus facts (C05) taken as hypotheses",
         "assumptions": ["epoch statistics satisfy produced_i <= expected_i and sum of pillar weights <= TotalWeight",
                         "epoch windows are unix seconds with |t| <= 2^62 (int64 subtraction does not wrap)",
